@@ -186,6 +186,27 @@ func countScenarios(tier string) []*mc.Scenario {
 			return nil
 		},
 	})
+	// a resource response whose resource fails to load carries an error in its
+	// place; the gateway keeps the direct subscription it made for it, so the
+	// client must be able to give it back (judged against the gateway's own count)
+	out = append(out, &mc.Scenario{
+		Name: "count/resource-response-error", Props: props, Init: func(w *mc.World) {
+			basicInit(w)
+			w.Svc.Call = func(name, method, payload string) string {
+				switch method {
+				case "ref":
+					return `{"resource":{"rid":"test.err2"}}`
+				case "gone":
+					return `{"resource":{"rid":"test.err"}}`
+				}
+				return `{"result":{"ok":true}}`
+			}
+		}, Monitors: allMons(),
+		Conns: []mc.ConnSpec{conn(latest,
+			syncReq("call.test.m.ref", "", 0), syncReq("unsubscribe.test.err2", "", 0), syncReq("unsubscribe.test.err2", "", 0),
+			syncReq("auth.test.m.gone", "", 0), syncReq("call.test.m.gone", "", 0), syncReq("unsubscribe.test.err", `{"count":3}`, 0), syncReq("unsubscribe.test.err", `{"count":2}`, 0),
+			syncReq("subscribe.test.err", "", 0))},
+	})
 	// new requests of legacy clients subscribe the created resource too
 	for _, ver := range []string{"", "1.1.1"} {
 		name := "count/legacy-new/none"
@@ -331,6 +352,22 @@ func cacheScenarios(tier string) []*mc.Scenario {
 		},
 		Threads: []mc.Thread{{Name: "env", Ops: []mc.Op{disc(0, 2), disc(1, 2)}}},
 		Menu:    menuStd(false, true),
+	})
+	// a parent whose references fail to load, subscribed again (by another
+	// connection, and by the same one) while the failed entries wait for their
+	// eviction: a reference takes no access request along, so nothing but the
+	// get path itself accounts for the use of the failed entry
+	out = append(out, &mc.Scenario{
+		Name: "cache/error-reference", Props: props, Monitors: allMons(),
+		Init: func(w *mc.World) {
+			basicInit(w)
+			w.Svc.Model("test.pe", "e", ref("test.err"), "e2", ref("test.err2"), "x", ref("test.x"))
+		},
+		Conns: []mc.ConnSpec{
+			conn(latest, req("subscribe.test.pe", 0), req("unsubscribe.test.pe", 1), req("subscribe.test.pe", 3)),
+			conn(latest, req("subscribe.test.pe", 2), req("get.test.err", 2)),
+		},
+		Threads: []mc.Thread{{Name: "env", Ops: []mc.Op{disc(1, 4), disc(0, 5)}}},
 	})
 	out = append(out, &mc.Scenario{
 		Name: "cache/delete-rereference", Props: props, Init: basicInit, Monitors: allMons(),
